@@ -39,7 +39,9 @@ MEASURED_FAST = set(
        "c08_omim_n1_t1_cut4", "c08_omim_n1_t1_ext4", "c08_orpha_n1_t1_cut4", "c08_orpha_n1_t1_ext4",
        "c07_gene_decode_n3_t2", "c07_omim_decode_n2_t2", "c07_omim_decode_n3_t1", "c07_orpha_decode_n2_t2", "c07_orpha_decode_n3_t1",
        "c12_insert_4", "c12_insert_5", "c12_bitor_universe6", "c12_bitand_universe6", "c12_add_single_id",
-       "c12_ancestor_union_u3", "c12_ancestor_common_u3"])
+       "c12_ancestor_union_u3", "c12_ancestor_common_u3",
+       "c19_is_modifier_u4", "c19_term_categories_u3",
+       "c13_child_nodes_1_3", "c13_child_nodes_all3_k2", "c13_obsolete_2_3", "c13_replace_1_3"])
 # CBMC option that lets symex constant-propagate reads from small heap objects (the arena id table): without it
 # the slot number read back from the table is symbolic and every later field access is a symbolic-offset access
 FS = "-Z unstable-options --cbmc-args --max-field-sensitivity-array-size 4096"
